@@ -814,15 +814,42 @@ class TrigTime:
                     next_time_adj = now + delta
 
             elif len(match1) == 3:
-                this_t, _ = await cls.parse_date_time(match1[1].strip(), 0, now, startup_time)
-                day_offset = (now - this_t).days + 1
-                if day_offset != 0 and this_t != startup_time:
+                date_time_str = match1[1].strip()
+                try:
+                    this_t, _ = await cls.parse_date_time(date_time_str, 0, now, startup_time)
+                except ValueError:
+                    # eg, 2/29 when the current year is not a leap year
+                    this_t = None
+                if this_t is not None:
+                    day_offset = (now - this_t).days + 1
+                    if day_offset != 0 and this_t != startup_time:
+                        #
+                        # Try a day offset (won't make a difference if spec has full date)
+                        #
+                        this_t, _ = await cls.parse_date_time(date_time_str, day_offset, now, startup_time)
+                startup = this_t is not None and now == this_t and now == startup_time
+                if (this_t is None or (this_t <= now and not startup)) and not re.match(
+                    r"(today|tomorrow)\b", date_time_str.lower()
+                ):
                     #
-                    # Try a day offset (won't make a difference if spec has full date)
+                    # A day of week, or a date without a year, recurs every week or year, so look
+                    # in the following week and years (no effect if spec has a full date or "now")
                     #
-                    this_t, _ = await cls.parse_date_time(match1[1].strip(), day_offset, now, startup_time)
-                startup = now == this_t and now == startup_time
-                if (now < this_t or startup) and (next_time is None or this_t < next_time):
+                    for later in [now + dt.timedelta(days=1)] + [
+                        dt.datetime(now.year + i, 1, 1) for i in range(1, 9)
+                    ]:
+                        try:
+                            later_t, _ = await cls.parse_date_time(date_time_str, 0, later, startup_time)
+                        except ValueError:
+                            continue
+                        if now < later_t:
+                            this_t = later_t
+                            break
+                if (
+                    this_t is not None
+                    and (now < this_t or startup)
+                    and (next_time is None or this_t < next_time)
+                ):
                     next_time_adj = next_time = this_t
 
             elif len(match2) == 5:
